@@ -1,12 +1,19 @@
 """C04 — counterexamples marked valid are reproducible (value parsing, validity labelling,
 refine-once control flow).
 
-Obligations: T-refine, T-solvefs, T-solvedispatch, T-cexhandler, T-pathquery, Props/C04.vo, lint.
+Obligations: T-refine, T-solvefs, T-solvedispatch, T-cexhandler, T-pathquery, T-cexprint, T-hexifyint,
+Props/C04.vo, lint.
 Ties (every run):
   X-const   solve.parse_const_value on generated value texts (three syntaxes + malformed)
             vs the extracted model vs the intended value;
   X-model   solve.parse_model_str on generated solver outputs (define-fun entries with
             halmos_/p_/other names, |quoted| names, line-wrapped values) vs the model;
+  X-render  what is PRINTED: solver outputs for variables of every declared type at several SMT
+            widths (values above the declared width, dirty address bits, sign bits, very long
+            bytes) -> real parse_model_str -> str(PotentialModel): the text, read back by an
+            independent reader, must be exactly the solver's assignment; the same text must come
+            out of the extracted model (regenerated f-string / hexify arm).  The printed text of
+            the X-e2e / X-l3 counterexamples is read back and replayed as well;
   X-print   the real z3 / yices-smt2 binaries (with halmos' solver arguments) asked for a
             model of x = n: the value text they print is the Spec printer's text
             (#x / #b / (_ bvN W)) and parses back to n;
@@ -50,7 +57,7 @@ from harness import common
 from harness.common import Model
 
 PID = "C04"
-TRANSLATORS = ["T-refine", "T-solvefs", "T-solvedispatch", "T-cexhandler", "T-pathquery"]
+TRANSLATORS = ["T-refine", "T-solvefs", "T-solvedispatch", "T-cexhandler", "T-pathquery", "T-cexprint", "T-hexifyint"]
 KNOWN = []
 
 ASSUMPTIONS = [
@@ -322,6 +329,16 @@ def gen_real_cases(tier, r):
                     # z3 only where it answers at once (256-bit div / sdiv); yices everywhere else
                     solver = "z3" if (w == 256 and op in ("div", "sdiv") and k % 2 == 0) else "yices"
                     cases.append({"op": op, "w": w, "x0": x0, "y0": y0, "pin": "both", "r": rr, "solver": solver, "cache": k % 4 == 0})
+    # narrow declared types in a 256-bit word (a static calldata argument read without ABI validation):
+    # the failing values do not fit the declared type; the PRINTED counterexample must reproduce too
+    narrow = [("uint8", 8), ("address", 160), ("bool", 1), ("int8", 8), ("bytes4", 32), ("uint160", 160), ("uint248", 248)]
+    for i, (ty, d) in enumerate(narrow if tier != "quick" else r.sample(narrow, 4)):
+        op = ["mul", "div", "mod"][i % 3]
+        x0 = (r.randrange(1, 1 << (256 - d)) << d) | r.randrange(1 << d)
+        y0 = (r.randrange(1, 1 << 16) << 160) | r.randrange(1, 1 << 12)
+        k += 1
+        cases.append({"op": op, "x0": x0, "y0": y0, "pin": "both", "r": exact(op, x0, y0), "solver": "yices",
+                      "cache": False, "xt": ty, "yt": "address"})
     # near misses with a non-zero divisor
     for op in (["div", "smod"] if tier == "quick" else ops):
         x0, y0 = r.randrange(1 << 200, 1 << 256), r.randrange(2, 1 << 12)
@@ -340,8 +357,8 @@ def real_prepare(case):
     from halmos.utils import create_solver
 
     w = case.get("w", 256)
-    x = z3.BitVec(f"p_x_uint{w}_00", w)
-    y = z3.BitVec(f"p_y_uint{w}_01", w)
+    x = z3.BitVec(f"p_x_{case.get('xt', f'uint{w}')}_00", w)
+    y = z3.BitVec(f"p_y_{case.get('yt', f'uint{w}')}_01", w)
     f = {"mul": f_mul.get(w), "div": f_div, "mod": f_mod.get(w), "sdiv": f_sdiv, "smod": f_smod, "exp": f_exp}[case["op"]]
     path = Path(create_solver())
     path.append(f(x, y) == case["r"])
@@ -391,6 +408,12 @@ def run_real(case, td, shared=None, prepared=None):
            "runs": (o1 is not None) + (o2 is not None), "out1": o1, "out2": o2,
            "model": None if out.model is None else {k: v.value for k, v in out.model.model.items()},
            "changes": ctx.refine().query.smtlib != ctx.query.smtlib}
+    if out.model is not None:
+        from harness import c04_render
+
+        back = c04_render.read_cex(str(out.model))     # what the user reads after `Counterexample:`
+        obs["printed"] = None if back is None else dict(back)
+        obs["printed_text"] = str(out.model)[:400]
     if shared is None:
         shutil.rmtree(d, ignore_errors=True)
     return obs
@@ -673,7 +696,12 @@ def run(rep, tier):
         # at most 12 failing inputs and 6 broken ties are written out (one kind must not crowd out the other)
         nfail[0] += 1
         nkind[kind] = nkind.get(kind, 0) + 1
-        if nkind[kind] <= (12 if kind == "failing-input" else 6):
+        what_key = (kind, (kw.get("sig") or {}).get("what"))
+        nkind[what_key] = nkind.get(what_key, 0) + 1
+        cap = 12 if kind == "failing-input" else 6
+        # ... and at most 4 of one signature while other signatures may still turn up
+        if nkind[what_key] <= (4 if what_key[1] else cap) and nkind.get(("written", kind), 0) < cap:
+            nkind[("written", kind)] = nkind.get(("written", kind), 0) + 1
             rep.fail(kind, what, case=case, **kw)
 
     phase("build")
@@ -723,6 +751,45 @@ def run(rep, tier):
                 fail("broken-tie", f"parse_model_str entry {name}: implementation {have}, model {mv} on {outs[k]['text'][:300]!r}", {"model_output": outs[k]["text"], "name": name})
 
     phase("model")
+    # ---- X-render: the printed counterexample denotes the solver's assignment
+    from harness import c04_render
+
+    rmodels = c04_render.gen_models(tier, r) if fam_on("render") else []
+    rcalls, rmeta = [], []
+    for k, vs in enumerate(rmodels):
+        syntax = "xbd"[k % 3]
+        case = {"render": {"vars": vs, "syntax": syntax}}
+        above = any(v["kind"] == "above-declared-width" for v in vs)
+        rep.case({"render": common.case_hash(case)}, nontrivial=above)
+        for v in vs:
+            rep.count("render_var", v["kind"])
+        if not vs:
+            rep.count("render_var", "empty-model")
+        try:
+            o = c04_render.run_model(vs, syntax)
+        except Exception as e:  # noqa: BLE001
+            fail("failing-input", f"printing the counterexample {[(v['name'], v['value']) for v in vs][:3]} raised {type(e).__name__}: {e}", case, sig={"what": "cex-print-raises"})
+            continue
+        want = sorted((v["name"], v["value"]) for v in vs)
+        back = c04_render.read_cex(o["str"])
+        if o["fmt"] != "Counterexample: " + o["str"]:
+            fail("failing-input", f"f\"Counterexample: {{model}}\" is not str(model): {o['fmt'][:200]!r} vs {o['str'][:200]!r}", case, sig={"what": "printed-cex-differs"})
+        elif back is None:
+            fail("failing-input", f"the printed counterexample is not readable as `name = 0x<hex>` lines: {o['str'][:300]!r}", case, sig={"what": "printed-cex-differs"})
+        elif sorted(back) != want:
+            diff = [(n, hex(dict(back)[n]) if n in dict(back) else 'not printed', hex(x)) for n, x in want if dict(back).get(n) != x][:3]
+            fail("failing-input", f"the printed counterexample (marked valid) is not the solver's model: (variable, printed, solver's value) = {diff}; "
+                 f"printed names {sorted(n for n, _ in back)[:6]}, model names {[n for n, _ in want][:6]}; text {o['str'][:200]!r}", case, sig={"what": "printed-cex-differs"})
+        rcalls.append(c04_render.model_call(vs, o["parsed"]))
+        rmeta.append((case, o, want))
+    if m is not None and rcalls:
+        for (case, o, want), mo in zip(rmeta, m.parallel_batch(rcalls)):
+            dec = c04_render.model_decode(mo)
+            if dec is None or dec[0] != o["str"].encode() or dec[1] is None or sorted(dec[1]) != want:
+                fail("broken-tie", f"str(PotentialModel): implementation {o['str'][:200]!r}, model {None if dec is None else dec[0][:200]!r}"
+                     f"{'' if dec is None or dec[1] is not None else ' (the Spec reader rejects the model text)'}", case)
+
+    phase("render")
     # ---- X-print
     from halmos.solvers import SOLVERS
 
@@ -870,6 +937,16 @@ def run(rep, tier):
                 elif t["status"] != "FAIL" or not valid:
                     fail("failing-input", f"python -m halmos --dump-smt-directory, run {k + 1}: {sig} fails for y = {t['want']} but ended {t['status']} with models {t['models']}", case,
                          sig={"what": "refinement-lost-cex"})
+                else:
+                    # the text on stdout is what the user replays: as many valid counterexamples as in the
+                    # report, each readable, each assigning the only failing input
+                    pv = [pp for pp in t.get("printed", []) if pp["valid"]]
+                    rep.count("l3_printed", "valid counterexample on stdout" + ("/failing input above the declared width" if t["want"] >> int(sig.split("uint")[1].rstrip(")")) else ""))
+                    badp = [pp for pp in pv if not pp["readable"] or pp["y"] != t["want"]]
+                    if badp or len(pv) != len(valid):
+                        fail("failing-input", f"python -m halmos, run {k + 1}: {sig} fails only for y = {hex(t['want'])}; the report holds {len(valid)} valid counterexample(s) with that value, but stdout shows "
+                             f"{[('unreadable' if not pp['readable'] else None if pp['y'] is None else hex(pp['y'])) for pp in pv]} after `Counterexample:` - replaying the printed input does not fail", case,
+                             sig={"what": "printed-cex-not-reproducible"})
 
     # ---- X-inv: python -m halmos --invariant-depth 1: the violating sequence needs a require() on an
     # argument that never reaches the state (a condition of the earlier transaction's path)
@@ -991,7 +1068,8 @@ def run(rep, tier):
         rep.count("real_e2e", f"{c['op']}{c.get('w', 256)}/{c['solver']}" + ("" if c["r"] == exact(c["op"], c["x0"], c["y0"], c.get("w", 256)) else "/no-evm-model"))
         rep.case({"real": c}, nontrivial=True)
         w = c.get("w", 256)
-        xs = {"x": (o["model"] or {}).get(f"p_x_uint{w}_00"), "y": (o["model"] or {}).get(f"p_y_uint{w}_01")}
+        nx, ny = f"p_x_{c.get('xt', f'uint{w}')}_00", f"p_y_{c.get('yt', f'uint{w}')}_01"
+        xs = {"x": (o["model"] or {}).get(nx), "y": (o["model"] or {}).get(ny)}
         consistent = c["r"] == exact(c["op"], c["x0"], c["y0"], w)
         if c["op"] == "exp":
             if o["result"] == 1 and o["valid"]:
@@ -1011,6 +1089,15 @@ def run(rep, tier):
             if xs["x"] is None or xs["y"] is None or exact(c["op"], xs["x"], xs["y"], w) != c["r"] \
                     or (c["pin"] in ("x", "both") and xs["x"] != c["x0"]) or (c["pin"] in ("y", "both") and xs["y"] != c["y0"]):
                 fail("failing-input", f"the valid counterexample {xs} does not satisfy the exact constraints of {c}", {"real": c, "implementation": o["model"]}, sig={"what": "cex-not-reproducible"})
+            else:
+                # the same replay with the values the user READS (the printed text)
+                pr = o.get("printed")
+                ps = {"x": (pr or {}).get(nx), "y": (pr or {}).get(ny)}
+                if pr is None or ps["x"] is None or ps["y"] is None or exact(c["op"], ps["x"], ps["y"], w) != c["r"] \
+                        or (c["pin"] in ("x", "both") and ps["x"] != c["x0"]) or (c["pin"] in ("y", "both") and ps["y"] != c["y0"]):
+                    fail("failing-input", f"the counterexample PRINTED for {c['op']}({hex(c['x0'])}, {hex(c['y0'])}) = {hex(c['r'])} (marked valid) reads x = {ps['x'] if ps['x'] is None else hex(ps['x'])}, "
+                         f"y = {ps['y'] if ps['y'] is None else hex(ps['y'])}: replayed, these inputs do not satisfy the exact constraints (the parsed model does: "
+                         f"x = {hex(xs['x'])}, y = {hex(xs['y'])}); printed text {o.get('printed_text')!r}", {"real": c, "printed": o.get("printed_text")}, sig={"what": "printed-cex-not-reproducible"})
         if m is not None and o["out1"] is not None and o["result"] != 2:  # a solver timeout leaves no output to replay
             calls.append(("c04_e2e", [0, 0, int(o["changes"]), len(o["out1"])] + txt(o["out1"]) + txt(o["out2"] or "")))
         else:
@@ -1031,11 +1118,11 @@ def run(rep, tier):
     rep.coverage["phase_seconds"] = phases
     rep.coverage["traces_validated_against_impl"] = len(scripted) + len(rcases) + len(fcalls) if m is not None else 0
     return rep.finish(
-        checker_cmd="make -C coq Props/C04.vo (coq_makefile, coqc 8.16.1) after regenerating coq/Gen/GenRefine.v, GenSolveFs.v and GenSolveDispatch.v from /repo/src/halmos/solve.py",
+        checker_cmd="make -C coq Props/C04.vo (coq_makefile, coqc 8.16.1) after regenerating coq/Gen/GenRefine.v, GenSolveFs.v, GenSolveDispatch.v, GenCexPrint.v from /repo/src/halmos/solve.py and GenHexify.v from utils.py",
         trusted_base=common.TRUSTED_BASE_COMMON + ["the z3 and yices-smt2 binaries in /venv/bin as truthful solvers in the end-to-end part of the correspondence run"],
         assumptions=ASSUMPTIONS,
         partial=PARTIAL + (f"; THIS RUN WAS RESTRICTED to the families {only} (VERIF_C04_ONLY)" if only else ""),
-        rule="five case families: (1) const: value texts in the syntaxes #b / #x (both cases) / (_ bvN W) / bvN for boundary and random values up to 512 bits plus malformed texts; non-trivial = well-formed value > 9; (2) model_output: generated get-model outputs with 1-5 define-fun entries (halmos_/p_/other names, |quoted|, wrapped lines, three value syntaxes, unparsable values); (3) print: real z3 / yices-smt2 (halmos' arguments, and --smt2-model-format alone) printing the model of x = n at widths 8/160/256/264; (4) scripted: every combination of canned first/refined solver answers x unsat-core hit x already-refined x refinement-changes-text through the real solve_end_to_end; non-trivial = first answer is sat; (5) real: Path queries f_evm_op(x, y) = r with x and/or y pinned, through the real solve_end_to_end with real z3 / yices (refinement needed), incl. exp (must stay potentially invalid) and unsatisfiable-after-refinement ones; (6) fs: sessions of 2-5 queries solved in one dump directory pre-populated (60%) with files of an earlier run, path ids drawn from a small set so that names collide, scripted solver keyed by the content it is handed, first / refined answers from {valid, abstract, unsat, unknown, garbage, timeout}, unsat-core hits, already-refined contexts; non-trivial = a file named like the current query's was already there; (7) l3: python -m halmos --dump-smt-directory on fabricated contracts with overloaded tests (identity / XOR / ADD conditions, one failing input each), two runs sharing the directory; (8) inv: python -m halmos --invariant-depth 1 on a target whose setter has a require() on an argument that is not stored: every valid model is replayed concretely; (9) path: real sevm.Path objects through random appends / branches / duplicate appends / slices over state variables / extensions by a fresh path (0-3 transactions), conditions over fresh variables, then to_smt2 with and without --cache-solver: the query must entail every condition; non-trivial = at least one extension of a sliced path; (10) handler: the real _solve_end_to_end_callback for every (executor shut down?, --early-exit?, future content) combination; (11) kill: 2-4 candidates solved concurrently through the real handle_assertion_violation / thread pool / PopenExecutor with scripted solvers that pause after `sat`, after the variables, inside the f_evm_ name, after it, in the first line, with / without a SIGTERM handler, one of them producing a valid answer that (with --early-exit) shuts the executor down and kills the others; non-trivial = a solver was killed mid-answer; distinct by hash of the case",
+        rule="five case families: (1) const: value texts in the syntaxes #b / #x (both cases) / (_ bvN W) / bvN for boundary and random values up to 512 bits plus malformed texts; non-trivial = well-formed value > 9; (2) model_output: generated get-model outputs with 1-5 define-fun entries (halmos_/p_/other names, |quoted|, wrapped lines, three value syntaxes, unparsable values); (3) print: real z3 / yices-smt2 (halmos' arguments, and --smt2-model-format alone) printing the model of x = n at widths 8/160/256/264; (4) scripted: every combination of canned first/refined solver answers x unsat-core hit x already-refined x refinement-changes-text through the real solve_end_to_end; non-trivial = first answer is sat; (5) real: Path queries f_evm_op(x, y) = r with x and/or y pinned, through the real solve_end_to_end with real z3 / yices (refinement needed), incl. exp (must stay potentially invalid) and unsatisfiable-after-refinement ones; (6) fs: sessions of 2-5 queries solved in one dump directory pre-populated (60%) with files of an earlier run, path ids drawn from a small set so that names collide, scripted solver keyed by the content it is handed, first / refined answers from {valid, abstract, unsat, unknown, garbage, timeout}, unsat-core hits, already-refined contexts; non-trivial = a file named like the current query's was already there; (7) l3: python -m halmos --dump-smt-directory on fabricated contracts with overloaded tests (identity / XOR / ADD conditions, one failing input each), two runs sharing the directory; (8) inv: python -m halmos --invariant-depth 1 on a target whose setter has a require() on an argument that is not stored: every valid model is replayed concretely; (9) path: real sevm.Path objects through random appends / branches / duplicate appends / slices over state variables / extensions by a fresh path (0-3 transactions), conditions over fresh variables, then to_smt2 with and without --cache-solver: the query must entail every condition; non-trivial = at least one extension of a sliced path; (10) handler: the real _solve_end_to_end_callback for every (executor shut down?, --early-exit?, future content) combination; (11) kill: 2-4 candidates solved concurrently through the real handle_assertion_violation / thread pool / PopenExecutor with scripted solvers that pause after `sat`, after the variables, inside the f_evm_ name, after it, in the first line, with / without a SIGTERM handler, one of them producing a valid answer that (with --early-exit) shuts the executor down and kills the others; non-trivial = a solver was killed mid-answer; (12) render: solver outputs (z3 / yices syntaxes) for 0-12 (once 70) variables named p_/halmos_<var>_<type>[_uid]_NN over 21 declared types at SMT widths 256 / 264 / 512 / the declared width / long bytes, values small / random / all ones / top bit / above the declared width, through the real parse_model_str and str(PotentialModel), read back by the independent reader; non-trivial = some value has bits above the declared width; the real (5) cases include narrow declared types in 256-bit words and (7) tests whose only failing input is above the declared width, both replayed from the PRINTED text; distinct by hash of the case",
     )
 
 
@@ -1047,6 +1134,12 @@ def replay(rep, body):
             print("parse_const_value", repr(case["const"]), "->", real_parse_const(case["const"]))
         elif "model_output" in case:
             print(case["model_output"], "->", real_parse_model(case["model_output"]))
+        elif "render" in case:
+            from harness import c04_render
+
+            o = c04_render.run_model(case["render"]["vars"], case["render"]["syntax"])
+            print("solver's model:", [(v["name"], hex(v["value"])) for v in case["render"]["vars"]], "\nprinted:", o["str"], "\nreads back as:",
+                  [(n, hex(x)) for n, x in (c04_render.read_cex(o["str"]) or [])])
         elif "scripted" in case:
             print(case["scripted"], "->", run_scripted(case["scripted"], td))
         elif "inv" in case:
